@@ -969,7 +969,7 @@ func c20(out *rec.Out, rng *rec.Rng, tier string, stats map[string]int) {
 	c20fbCreate(out, "conc", nc, stats)
 	// 5. engine level
 	files := []string{"task.bpmn", "parallel_gateway_fork_join.bpmn", "exclusive_gateway.bpmn", "inclusive_gateway.bpmn",
-		"parallel_gateway_m_n.bpmn", "sample.bpmn", "inline:loopfork"}
+		"parallel_gateway_m_n.bpmn", "sample.bpmn", "inline:loopfork", "boundary_event.bpmn"}
 	builders := []string{"sno", "fallback", "shared"}
 	k := 4
 	if thorough {
